@@ -93,10 +93,19 @@ def scenarios(draw):
         for _ in range(draw(st.integers(1, 3))):
             late_ticks[str(draw(st.integers(1, 40)))] = draw(
                 st.sampled_from([0.125, 0.5, 1.0, 3.0]))
+    clients = [[['add', 's'], ['wait_idle', 600]]]
+    scripts = {'s': '\n'.join(lines)}
+    if draw(st.integers(0, 3)) == 0:
+        # another script starts and ends while this one runs: its clock is
+        # its own, this script's time line does not notice
+        scripts['bg'] = draw(st.sampled_from(
+            ['time 0.5 wait time 0.25 wait', 'wait', 'time 2 wait']))
+        clients.append([['pause', draw(st.sampled_from([0.125, 0.625, 1.125]))],
+                        ['spawn', 'bg']])
     return {'population': POP, 'tick': tick, 'late_ticks': late_ticks,
             'work': {'set_power': work, 'set_color': work},
-            'start': start, 'scripts': {'s': '\n'.join(lines)},
-            'plan': plan, 'clients': [[['add', 's'], ['wait_idle', 600]]]}
+            'start': start, 'scripts': scripts,
+            'plan': plan, 'clients': clients}
 
 
 @st.composite
@@ -119,7 +128,8 @@ def analyse(scenario, result, preempted):
             result.outcome, result.sched.detail))], [], False
     tick = scenario['tick']
     overrun = sum(scenario.get('late_ticks', {}).values())
-    start = next((e for e in log if e[3] == 'job-start'), None)
+    start = next((e for e in log if e[3] == 'job-start' and e[4] == 's'),
+                 None)
     if start is None:
         return [('not-started', 'the job never started')], [], False
     thread = start[2]
@@ -127,6 +137,8 @@ def analyse(scenario, result, preempted):
     ticks = sorted({e[0] for e in log if e[3] == 'tick'})
     problems = []
     labels = ['late-ticks'] if overrun else []
+    if 'bg' in scenario['scripts']:
+        labels.append('another-script-alongside')
     plan = list(scenario['plan'])
     base = None
     total = 0.0
